@@ -496,14 +496,30 @@ class GovGen:
         return _bad("nonhex", max(2, 2 * n))
 
     def module(self):
+        """A module name: the request's byte string as given.  Plain names of length 0, 1, 11, 31, 32, 33, 64, ... and names
+        with leading / trailing blanks, tabs, newlines, carriage returns and NULs, in particular raw length > 32 >= trimmed
+        length and raw length == 32 with surrounding whitespace."""
         r = self.r
         y = r.random()
-        if y < 0.5:
+        if y < 0.35:
             return _ok("546f6b656e427269646765")
-        if y < 0.6:
+        if y < 0.42:
             return _ok("436f7265")
-        n = r.choice([0, 1, 11, 31, 32, 33, 34, 40, 64, 100])
-        return _ok("".join("%02x" % r.randrange(0x21, 0x7f) for _ in range(n)))
+        if y < 0.65:
+            n = r.choice([0, 1, 11, 31, 32, 33, 34, 40, 64, 100])
+            return _ok("".join("%02x" % r.randrange(0x21, 0x7f) for _ in range(n)))
+        core = r.choice(["546f6b656e427269646765", "436f7265", "", None, None])
+        if core is None:
+            core = "".join("%02x" % r.randrange(0x21, 0x7f) for _ in range(r.choice([1, 11, 30, 31, 32, 32, 33])))
+        ws = lambda: r.choice(["20", "20", "09", "0a", "0d", "00", "0d0a"])
+        total = r.choice([31, 32, 32, 33, 33, 34, 64, len(core) // 2 + 1, len(core) // 2 + 2])
+        pad = max(0, total - len(core) // 2)
+        where = r.choice(["lead", "trail", "both"])
+        lead = pad if where == "lead" else 0 if where == "trail" else pad // 2
+        same = r.random() < 0.6
+        w = ws()
+        h = "".join((w if same else ws()) for _ in range(lead)) + core + "".join((w if same else ws()) for _ in range(pad - lead))
+        return _ok(h)
 
     def header(self):
         r = self.r
@@ -599,7 +615,7 @@ class GovGen:
         if kind in ("contract_upgrade", "bridge_contract_upgrade"):
             q["payload"] = _ok(self.hexbytes(r.choice([0, 1, 2, 8, 35, 100, 300])))
         if kind in ("bridge_register_chain", "bridge_contract_upgrade"):
-            q["module"] = _ok("546f6b656e427269646765")
+            q["module"] = _ok("546f6b656e427269646765") if r.random() < 0.7 else self.module()
         if kind == "guardian_set":
             n = r.choice([1, 2, 3, 7, 13, 19])
             q["guardians"] = [_ok("%040x" % (r.getrandbits(150) * 32 + i)) for i in range(n)]
@@ -724,11 +740,31 @@ def gov_validate(work, lines):
     return vlib.tlc_prints(r["out"], "REJECT"), r
 
 
+_WS = {0x20, 0x09, 0x0a, 0x0d, 0x0b, 0x0c, 0x00}
+
+
+def gov_module_class(req):
+    """Description of a request's module name (coverage classes and signature labels only)."""
+    m = req.get("module")
+    if not isinstance(m, dict) or m.get("form") != "ok":
+        return None
+    b = bytes.fromhex(m["hex"])
+    t = b.strip(bytes(_WS))
+    return {"raw": len(b), "trimmed": len(t), "ws": len(t) != len(b),
+            "cls": "%s/%s" % ("le32" if len(b) <= 32 else "gt32", "plain" if len(t) == len(b) else "ws-trim-le32" if len(t) <= 32 else "ws-trim-gt32")}
+
+
 def gov_signatures(rej, line):
     """One signature per (tag, offending part): stable, names the failing call site / input class."""
     kind = rej.get("kind")
     tags = rej.get("tags", [])
     unfit = sorted(rej.get("unfit", []))
+    mc = gov_module_class(line.get("a", {}).get("req", {}))
+    if mc and mc["ws"]:
+        # the module name has surrounding whitespace / NUL bytes: name the class (module-ws = raw name too long only
+        # because of them; module-ws-fits = raw name fits, the node must use it as given or refuse)
+        label = "module-ws" if (mc["raw"] > 32 >= mc["trimmed"]) else "module-ws-long" if mc["raw"] > 32 else "module-ws-fits"
+        unfit = [label if u == "module" else u for u in unfit] or ([label] if mc["raw"] <= 32 else [])
     sigs = []
     calls = line.get("s", {}).get("calls", [])
     multi = line.get("a", {}).get("batch", {}).get("size", 1) > 1
@@ -740,7 +776,14 @@ def gov_signatures(rej, line):
     where = "/multi-message" if multi else ""
     for tag in sorted(tags):
         if tag in ("payload", "digest", "header", "impure"):
-            sigs.append("%s/%s%s" % (kind, tag, where or ("/after-later-construction" if later_only else "")))
+            sigs.append("%s/%s%s%s" % (kind, tag, where or ("/after-later-construction" if later_only else ""),
+                                       "/module-ws" if (mc and mc["ws"] and tag == "payload") else ""))
+            continue
+        if tag == "panic" and multi:
+            # the whole request panicked: which of its messages did it is not observable; the single-message cases name it
+            msgs = sorted({re.sub(r"[^A-Za-z0-9]+", "-", (c.get("panic") or "").splitlines()[0] if c.get("panic") else "")[:50].strip("-")
+                           for c in calls if c.get("class") == "panic"})
+            sigs.append("multi-message-request/panic/%s" % "+".join(msgs))
             continue
         if tag == "panic":
             msgs = sorted({re.sub(r"[^A-Za-z0-9]+", "-", (c.get("panic") or "").splitlines()[0] if c.get("panic") else "")[:50].strip("-")
